@@ -24,21 +24,23 @@ RULE = (
     "Generators are generated from Hypothesis-drawn data: H = s_h * normalised Hermitian Ginibre matrix, K = U diag(lam) U^dagger "
     "with a drawn unitary (complex / real-orthogonal / identity) and a drawn spectrum (full-rank PSD, rank-deficient, degenerate, "
     "indefinite, zero; strengths s_h, s_k log-uniform over [1e-3, 10]), J = J(K) (GKSL) or J(K) + generic Hermitian or a J without "
-    "identity/B_1 component, optional first-row defects, jump-operator sets of 1..d^2 generic / Hermitian / projector matrices; shapes "
-    "1q, qutrit, 2q.  Oracles are an independent numpy GKSL superoperator applied to a basis of operator space (Hermitian and "
+    "identity/B_1 component, optional first-row defects, jump-operator sets of 1..d^2 generic / Hermitian / projector matrices, "
+    "random-generation settings with drawn int seeds and strengths in [1e-4, 1]; shapes 1q, qutrit, 2q.  Oracles are an independent numpy GKSL superoperator applied to a basis of operator space (Hermitian and "
     "computational basis), a process-matrix based decomposition, eigenvalue clipping by eigh, a Taylor scaling-and-squaring "
     "exponential and refmodel's Choi matrix; verdicts are compared outside the margin band only.  Non-trivial = K has a non-zero "
     "trace and complex off-diagonal entries (the class whose anti-commutator part has an identity component); for the verdict "
     "facet: a defect within two decades of atol or a rank-deficient K; for var_index: d >= 3 or the parametrisation with the "
-    "equality constraint."
+    "equality constraint; for random_setting: both strengths positive."
 )
 ASSUMPTIONS = [
     "generator convention L(rho) = -i[H,rho] + {J,rho} + sum K_ab B_a rho B_b^dagger with J(K) = -1/2 sum K_ab B_b^dagger B_a over the "
     "system's orthonormal Hermitian basis (B_0 = I/sqrt(d)); H is compared traceless (an identity shift generates nothing)",
     "strengths are limited to <= 10 so that the imaginary rounding noise of quara's basis change stays below its absolute "
     "truncation threshold 1e-13 (above it quara raises by design); entries below 1e-13 are zeroed by quara, so every tolerance has a 3e-13 floor",
-    "the exponential facet runs generators of norm > 0.3 under Settings.atol = 1e-9 (rounding noise of expm on boundary generators "
-    "is not distinguishable from a violation at the default 1e-13)",
+    "the exponential facet exponentiates generators of norm > 0.3 without the constructor-level physicality requirement and judges "
+    "the gate by refmodel (Choi min eigenvalue, first row) and by quara's verdict at an explicit tolerance (rounding noise of expm on "
+    "boundary generators is not distinguishable from a violation at the default 1e-13); generators of norm <= 0.3 run with the "
+    "requirement at the default atol; Settings.atol is never raised around quara's builders because it is also their truncation threshold",
 ]
 TECHNIQUE = (
     "property-based testing (Hypothesis): generated (H, J, K) / jump-operator generators vs an independent numpy GKSL reference on a "
@@ -635,7 +637,7 @@ def _eps_st(atol):
 def verdict_case(draw, tier):
     g = draw(gen_spec(tier, k_kinds=K_KINDS_PSD, j_kinds=("from_k",)))
     atol = draw(gen.log_uniform(1e-12, 1e-2))
-    kind = draw(st.sampled_from(["ineq", "eq", "both", "ineq", "none"]))
+    kind = draw(st.sampled_from(["ineq", "eq", "both", "eq", "ineq", "none"]))
     df = {"kind": kind, "eps_eq": draw(_eps_st(atol)), "eps_in": draw(_eps_st(atol)),
           "col": draw(st.integers(0, 15)), "idx": draw(st.integers(0, 14)), "sign": draw(st.sampled_from([1.0, -1.0]))}
     return {"g": g, "shape": g["shape"], "atol": atol, "defect": df, "via_settings": draw(st.booleans())}
@@ -1028,7 +1030,7 @@ FACETS = {
         "check": check_exponential,
         "budget": {"quick": {"examples": 240, "shards": 8}, "thorough": {"examples": 4000, "shards": 16}},
         "nontrivial": "K has a non-zero trace and complex off-diagonal entries",
-        "min_nontrivial": 30,
+        "min_nontrivial": 15,
     },
     "projections": {
         "strategy": projection_case,
